@@ -34,6 +34,9 @@ func VerifOpenRelation(db string, cacheSize int) (*RelationService, error) {
 	return &RelationService{fs: fs, wal: w}, nil
 }
 
+// VerifSetCacheSize replaces the (still empty or clean) page cache of an open store by one of the given capacity.
+func VerifSetCacheSize(rs *RelationService, n int) { rs.fs.cache = NewLRU(n) }
+
 // VerifFlush triggers what the 100 ms timer would do.
 func VerifFlush(rs *RelationService) error { return rs.fs.flushPages() }
 
